@@ -367,6 +367,78 @@ def handler_level(run, r):
                               % (front, framing, g.hex()[:60], cls, missing, len(want), BOUND[framing], [type(e).__name__ for e in res.escaped][:3]))
 
 
+def stream_idle_reset(run, r):
+    """threaded TCP handler carrying a serial framing (serial-over-TCP gateways): noise or an abandoned partial frame, then an idle
+    period longer than the receive timeout (the handler resets its framer), then valid requests - whole or (ASCII) each in two or
+    three segments: every one of them must be answered.  Noise that makes the framer raise closes the connection (a stream
+    front-end's answer to a protocol error, C12): those runs are counted, not judged."""
+    import socket
+    from .. import frontends as FE
+    from .. import repo
+    from pymodbus.datastore import ModbusSequentialDataBlock, ModbusSlaveContext, ModbusServerContext
+    n = run.scale(27, 900)
+    for framing in FRAMINGS:
+        for i in range(n):
+            cls = CLASSES[i % len(CLASSES)]
+            g = garbage(r, framing, REQ, cls)[:1024]
+            reqs, frames = [], []
+            for k in range(12):
+                a = 100 + k
+                f = ADU.build(framing, UNIT, S.encode({'dir': REQ, 'fc': 3, 'address': a, 'count': 1}))
+                if framing == 'binary' and any(b in (0x7B, 0x7D) for b in f[1:-1] + ADU.build('binary', UNIT, S.encode({'dir': RSP, 'fc': 3, 'registers': [a + 7]}))[1:-1]):
+                    continue
+                reqs.append(a)
+                frames.append(f)
+            chop = framing == 'ascii' and i % 2 == 0
+            feed = [g, socket.timeout('timed out')]
+            second = r.randrange(2, len(frames) - 2)          # a second idle period further on
+            for k, f in enumerate(frames):
+                if k == second:
+                    feed.append(socket.timeout('timed out'))
+                if chop:
+                    cuts = sorted(set(r.randrange(1, len(f)) for _ in range(r.randint(1, 2))))
+                    feed.extend(f[a:b] for a, b in zip([0] + cuts, cuts + [len(f)]))
+                else:
+                    feed.append(f)
+            _stream_idle_one(run, framing, g, cls, chop, [x if isinstance(x, bytes) else None for x in feed], len(frames), reqs)
+
+
+def _stream_idle_one(run, framing, g, cls, chop, items, nframes, reqs):
+    import socket
+    from .. import frontends as FE
+    from .. import repo
+    from pymodbus.datastore import ModbusSequentialDataBlock, ModbusSlaveContext, ModbusServerContext
+    if True:
+        if True:
+            block = ModbusSequentialDataBlock(0, [(x + 7) & 0xFFFF for x in range(2000)])
+            ctx = ModbusServerContext(slaves=ModbusSlaveContext(hr=block, zero_mode=True), single=True)
+            repo.reset_globals()
+            feed = [x if x is not None else socket.timeout('timed out') for x in items]
+            idle = next(x for x in feed if not isinstance(x, bytes))
+            nbytes_items = sum(1 for x in feed if isinstance(x, bytes))
+            res = FE.feed('sync-tcp', framing, ctx, feed)
+            run.count('stream_idle_runs')
+            if res.stalled:
+                return
+            want = b''.join(ADU.build(framing, UNIT, S.encode({'dir': RSP, 'fc': 3, 'registers': [a + 7]})) for a in reqs)
+            judged = idle.__traceback__ is not None            # the handler survived the noise and met the idle period (the exception was raised)
+            if not judged:
+                run.count('stream_idle_closed_on_noise')       # the noise made the framer raise: connection closed before the idle period
+            ok = (not judged) or res.out.endswith(want)
+            case = {'handler': 'sync-tcp', 'framing': framing, 'garbage': g, 'class': cls, 'bursts': 1, 'idle': True, 'chopped': chop, 'items': items, 'nframes': nframes, 'reqs': reqs}
+            run.case(h64(('stream-idle', framing, g, chop)), True,
+                     sample={'level': 'handler', 'front': 'sync-tcp', 'framing': framing, 'class': cls, 'garbage': g.hex()[:60], 'idle_timeouts': 2, 'requests_in_segments': chop,
+                             'verdict': 'closed on the noise' if not judged else ('all answered' if ok else 'not all answered')}, sample_class=('stream-idle', framing, chop))
+            if judged:
+                run.count('stream_idle_judged')
+            if ok:
+                return
+            run.violation('handler:sync-tcp/%s:not-answered-after-idle-reset' % framing, case,
+                          'sync-tcp/%s: garbage %s (%s), idle timeout, then %d requests%s: output does not end with their %d replies (fed %d of %d reads, closed=%r, exceptions %r, output %s)'
+                          % (framing, g.hex()[:60], cls, nframes, ' in segments' if chop else '', len(reqs), res.fed, nbytes_items, res.closed,
+                             [type(e).__name__ for e in res.escaped][:3], res.out.hex()[-80:]))
+
+
 def run(run):
     r = run.rng('main')
     run.rule = ('case = (framing, direction, garbage prefix of a class, N unique valid frames, frames per read, garbage in its own read or joined to the first frame); '
@@ -434,6 +506,8 @@ def run(run):
                     run.case(h64((framing, d, 'bc', bc)), True, sample=None)
     if run.shard in (None, 0):
         handler_level(run, r)
+        stream_idle_reset(run, r)
+        run.floor('stream handler runs judged after an idle reset', run.counters.get('stream_idle_judged', 0), 30)
         run.floor('handler-level runs', sum(v for k, v in run.counters.items() if k.startswith('handler_level_runs:')), 60)
     run.floor('scenarios per framing (min)', min(run.counters.get('scenarios:%s' % f, 0) for f in FRAMINGS), 150 if run.shard is None else 10)
     run.floor('clean-region scenarios', run.counters.get('clean_region_cases', 0), 200 if run.shard is None else 10)
@@ -441,6 +515,10 @@ def run(run):
 
 
 def replay(run, case):
+    if case.get('idle'):
+        _stream_idle_one(run, case['framing'], case['garbage'], case['class'], case['chopped'], case['items'], case['nframes'], case['reqs'])
+        run.evaluations += 1
+        return
     if case.get('handler'):
         print('note: handler-level cases are regenerated by the tier (seeded); the framer-level replay of the same garbage follows')
         case = {'framing': case['framing'], 'dir': REQ, 'garbage': case['garbage'], 'class': case['class'], 'per_read': 1, 'joined': False, 'big': True, 'nframes': 24, 'fseed': 1, 'warm': 1}
